@@ -65,6 +65,18 @@ def r_c14(toks):
     return f"{'run_pes' if toks[0] == 'PES' else 'run_ppc'} false {hex_to_coq(toks[1])}"
 
 PROPS = {
+    "C17": dict(
+        props_files=["Props/C17.v"],
+        suites=["C17"],
+        render=r_stream,
+        rule="all 256 tags x payload lengths 0..=6; payload lengths 0..=255 for each typed descriptor (registration, ISO-639 with "
+             "audio types steered to 0..5, maximum bitrate, AVC); exhaustive loops over (tag class in {5,10,14,40,0,200}, length in "
+             "{0,1,3,4,5}) sequences up to total length 10 (thorough 14) with truncated and over-long tails; random loops of up to 5 "
+             "descriptors with random tails / truncation; distinct = distinct case lines, every accessor of every item is evaluated",
+        trusted=["13818-1 2.6 (Table 2-45 and the typed descriptors' syntax) as transcribed in coq/Spec/DescriptorSpec.v",
+                 "encoding_rs::mem::decode_latin1 modelled as the identity on code points; smptera FormatIdentifier as its 4 bytes"],
+        assumptions=["input bytes are < 256", "typed descriptors' buffers are private: tag and payload offset are observed only for UnknownDescriptor and through additional_identification_info()"],
+    ),
     "C04": dict(
         props_files=["Props/C04.v"],
         suites=["C04"],
